@@ -317,7 +317,7 @@ class BuildResult:
         self.builder = None
 
 
-def build(case, kind: str, *, auto_alias=False, backend: Backend | None = None, upto=None) -> BuildResult:
+def build(case, kind: str, *, auto_alias=False, backend: Backend | None = None, upto=None, on_step=None) -> BuildResult:
     """Run all steps.  With auto_alias, a SubqueryError at step k inserts
     `alias(keep_col_refs=True)` before it (IR is rewritten) and continues."""
     from pydiverse.transform.errors import SubqueryError
@@ -336,6 +336,8 @@ def build(case, kind: str, *, auto_alias=False, backend: Backend | None = None, 
         st = steps[k]
         try:
             b.step(st)
+            if on_step is not None:
+                on_step(st, b)
         except SubqueryError as ex:
             if not auto_alias or st.get("_aliased"):
                 res.error = (k, ex)
@@ -356,7 +358,11 @@ def build(case, kind: str, *, auto_alias=False, backend: Backend | None = None, 
                 try:
                     for p in pre:
                         b.step(p)
+                        if on_step is not None:
+                            on_step(p, b)
                     b.step(st2)
+                    if on_step is not None:
+                        on_step(st2, b)
                 except SubqueryError as ex2:
                     last = ex2
                     continue
